@@ -157,7 +157,7 @@ def run(rep, tier, pool, variants=("shipped",)):
                 gs.append(g)
         except RecursionError:
             continue
-    res = pool.call("harness.props.c17:check_grammar", [(g, maxlen) for g in gs], timeout=300)
+    res = pool.call("harness.props.c17:check_grammar", [(g, maxlen) for g in gs], timeout=90)
     total_strings = 0
     for g, o in zip(gs, res):
         text = o.get("grammar") or G.render(g)
